@@ -73,6 +73,21 @@ def _crash(op, durable, h0, sp, s0, s1, target, crash_at):
         w.cleanup()
 
 
+def _reached(op, h0, sp, s0, s1, target, crash_at):
+    """Reachability twin body: True iff NO image was photographed (the twin must be REFUTED)."""
+    w = make_world(target)
+    try:
+        pre, new, deleted, run = _setup(w, op, h0, sp, s0, s1)
+        w.install_crash(crash_at, False)
+        try:
+            run(w.c)
+        except Crash:
+            pass
+        return len(w.box) == 0
+    finally:
+        w.cleanup()
+
+
 def _monitor(op, h0, sp, s0, s1, target):
     """C06 ordering monitor: every index commit only publishes rows whose bytes are already durable; every unlink of a
     loose file happens only when a committed row on durable bytes replaces it."""
